@@ -49,6 +49,14 @@ def count(name):
     CALLS[name] = CALLS.get(name, 0) + 1
 
 
+class _Once:
+    """A raw container notifier that takes itself out of the container's `notifiers` list the first time it is called."""
+
+    def __call__(self, container, *rest):
+        if any(x is self for x in container.notifiers):
+            container.notifiers.remove(self)
+
+
 class Bare(HasTraits):
     """Lacks `value`: hooking it makes the observers' maintainer raise - after the list was already changed."""
     other = Int
@@ -176,6 +184,10 @@ OP = st.one_of(
     st.tuples(st.just("quiet_refused"), st.sampled_from(["a", "child", "children"])),
     st.tuples(st.just("table_update"), st.lists(st.tuples(st.sampled_from("abc"), I4).map(list), max_size=3)),
     st.tuples(st.just("group_add"), I4), st.tuples(st.just("group_discard"), I4),
+    # a batch whose LATER element is refused: the whole operation is refused, or whatever it did is announced
+    st.tuples(st.just("batch_bad"), st.sampled_from(["group", "group2", "children", "children_iadd", "table"]), st.lists(I4, min_size=1, max_size=3)),
+    # a notifier at the head of the container's own `notifiers` list that takes itself out when first called
+    st.tuples(st.just("arm_oneshot"), st.sampled_from(["children", "group", "table"]), st.integers(0, 4)),
     st.tuples(st.just("nested_append"), I4, I4), st.tuples(st.just("nested_set"), I4, st.lists(I4, max_size=2)),
     st.tuples(st.just("nested_pop"), I4),
     st.tuples(st.just("read"), st.sampled_from(PROPS)), st.tuples(st.just("read"), st.sampled_from(PROPS)),
@@ -397,6 +409,32 @@ def run(case, ctx):
             o.table.update({a: pool[b % n] for a, b in op[1]})
         elif k == "group_add":
             o.group.add(pool[op[1] % n])
+        elif k == "batch_bad":
+            from traits.api import TraitError as _TE
+            good = [pool[i % n] for i in op[2]]
+            try:
+                if op[1] == "group":
+                    o.group.update(good + ["not a child"])
+                elif op[1] == "group2":
+                    o.group.update(good, ["not a child"])
+                elif op[1] == "children":
+                    o.children.extend(good + [5])
+                elif op[1] == "children_iadd":
+                    c_ = o.children
+                    c_ += good + [5]
+                else:
+                    o.table.update([("k%d" % i, g) for i, g in enumerate(good)] + [("z", 5)])
+                ctx.fail("setup/accepted", "a batch with an unacceptable element was accepted: %s" % what)
+            except _TE:
+                pass
+            interesting = True
+            ctx.label("batch-with-a-refused-later-element")
+        elif k == "arm_oneshot":
+            nl = getattr(o, op[1]).notifiers
+            nl.insert(min(op[2], len(nl)), _Once())
+            interesting = True
+            ctx.label("self-removing-notifier-ahead-of-the-property")
+            continue
         elif k == "group_discard":
             x = pool[op[1] % n]
             if eqnodes and any(m is not x and m == x for m in o.group):
